@@ -88,8 +88,11 @@ type Impl struct{}
 func (Impl) M() {}
 type PImpl struct{}
 func (*PImpl) M() {}
-`},
-	{"ex.com/m/b", "b", c05Std("b") + "type N struct{}\ntype IN interface{ M(N) N }\n"},
+type Sealed interface { M(); seal() }
+type SealedU interface{ seal() }
+type Open interface{ M() }
+` + c05XBases},
+	{"ex.com/m/b", "b", c05Std("b") + "type N struct{}\ntype IN interface{ M(N) N }\n" + c05XBases},
 	{"ex.com/m/yaml.v3", "yaml", c05Std("yaml")},
 	{"ex.com/m/foo-go", "foo", c05Std("foo")},
 	{"ex.com/m/lastel", "decl", c05Std("decl")},
